@@ -640,6 +640,20 @@ func ClauseOptions(yield func(name string, s S)) {
 	s.With = &With{Recursive: true, CTEs: []CTE{{Name: "w1", Cols: []string{"a1"}, Body: SetOp(Sel{Items: []SelItem{{X: Int("1")}}}.Build(), "UNION", true,
 		Sel{Items: []SelItem{{X: Bin("+", Col("a1"), Int("1"))}}, From: []TableRef{{Name: "w1"}}, Where: xp(Bin("<", Col("a1"), Int("5")))}.Build())}}}
 	yield("cte-recursive-union", s.Build())
+	// data-modifying CTE bodies: the body of a CTE is any statement, not only a query
+	for _, dm := range []struct {
+		n string
+		b S
+	}{
+		{"delete", Del{Table: "t5", Where: xp(Bin("<", Col("c5"), Func("f5", nil, FuncOpts{}))), Returning: []X{Col("c6")}}.Build()},
+		{"update", Upd{Table: "t5", Set: []Assign{{"c5", Func("f5", []X{Col("c7")}, FuncOpts{})}}, Where: xp(Bin("=", Col("c6"), Int("1"))), Returning: []X{Col("c6")}}.Build()},
+		{"insert", Ins{Table: "t5", Cols: []string{"c5"}, Rows: [][]X{{Func("f5", nil, FuncOpts{})}}, Returning: []X{Col("c6")}}.Build()},
+	} {
+		s = base()
+		s.From = []TableRef{{Name: "w1"}}
+		s.With = &With{CTEs: []CTE{{Name: "w1", Body: dm.b}}}
+		yield("cte-dml-"+dm.n, s.Build())
+	}
 	// window frame variants
 	for _, ft := range []string{"ROWS", "RANGE"} {
 		starts := []FrameBound{{Type: "UNBOUNDED PRECEDING"}, {Type: "PRECEDING", Value: xp(Int("2"))}, {Type: "CURRENT ROW"}}
